@@ -42,16 +42,6 @@ Batches(ts, n) ==
   IF n = 0 THEN {<<>>}
   ELSE {<<>>} \cup UNION { {<<o>> \o b : b \in Batches(Apply(ts, o), n - 1)} : o \in OpsFor(ts) }
 
-RECURSIVE ValidFrom(_,_)     \* every operation valid in the state it is applied to
-ValidFrom(ts, ops) ==
-  IF ops = <<>> THEN TRUE
-  ELSE LET o == Head(ops)
-           ok == CASE o.k = "C" -> ~ts[o.u].ex
-                   [] o.k = "D" -> ts[o.u].ex /\ o.o = ts[o.u].m
-                   [] o.k = "U" -> ts[o.u].ex /\ o.o[o.p] = ts[o.u].m[o.p]
-                   [] OTHER -> TRUE
-       IN ok /\ ValidFrom(Apply(ts, o), Tail(ops))
-
 RBatch(r) ==
   /\ "Batch" \in LocalKinds /\ sy[r].pc = "idle" /\ AllIdle
   /\ edits < MaxEdits
@@ -61,9 +51,7 @@ RBatch(r) ==
        /\ Edit(r, b)
        /\ h' = Append(h, [Ev("Edit", r) EXCEPT !.ops = b])
        \* C15: a commit only appends to the working set
-       /\ wsok' = (wsok /\ Len(db'[r].ws) >= Len(db[r].ws)
-                        /\ SubSeq(db'[r].ws, 1, Len(db[r].ws)) = db[r].ws
-                        /\ \A i \in (Len(db[r].ws) + 1)..Len(db'[r].ws) : db'[r].ws[i] # NoVal)
+       /\ wsok' = (wsok /\ CommitAppendsOnly(db[r], db'[r]))
   /\ edits' = edits + 1
   /\ UNCHANGED <<syncs, fetched, undook>>
 
@@ -74,19 +62,6 @@ RGetUndo(r) ==
   /\ h' = Append(h, Ev("GetUndo", r))
   /\ UNCHANGED <<vars, edits, syncs, wsok, undook>>
 
-(* C07 clauses for one undo step from d to e with list u and result res *)
-UndoClauses(d, e, u, res) ==
-  IF u # <<>> /\ IsSuffix(u, d.ops)
-  THEN LET pre == SubSeq(d.ops, 1, Len(d.ops) - Len(u))
-           before == ApplyAll(Replay(chain, d.base), pre)
-       IN \* for a valid sequence of changes on a replica that satisfies the replica invariant
-          (ValidFrom(before, u) /\ ApplyAll(before, u) = d.tasks
-             /\ \E i \in DOMAIN u : u[i].k # "P") =>
-             /\ res = "true"
-             /\ e.tasks = before               \* exactly the earlier content
-             /\ e.ops = pre                    \* exactly those operations withdrawn
-  ELSE res = "false" /\ e = d                  \* not the most recent ones: nothing changes
-
 RCommitReversedFetched(r) ==
   /\ "Undo" \in LocalKinds /\ sy[r].pc = "idle" /\ AllIdle
   /\ fetched[r] # <<>>
@@ -95,10 +70,6 @@ RCommitReversedFetched(r) ==
   /\ undook' = (undook /\ UndoClauses(db[r], db'[r], fetched[r], UndoResult(db[r], fetched[r])))
   /\ fetched' = [fetched EXCEPT ![r] = <<>>]
   /\ UNCHANGED <<edits, syncs, wsok>>
-
-RebuildClauses(d, e, renumber) ==
-  /\ WSExactlyPending(e) /\ WSNoTrailingGap(e)
-  /\ IF renumber THEN WSCompact(d, e) ELSE WSStable(d, e)
 
 RRebuildStep(r, renumber) ==
   /\ "Rebuild" \in LocalKinds /\ sy[r].pc = "idle" /\ AllIdle
